@@ -151,6 +151,12 @@ Fixpoint wf_flow (f : flow) : bool :=
   | Mono h => (0 <=? h)%Z
   end.
 
+(* the same on linearised flows (the hypothesis of the theorems) *)
+Definition wf_unit_b (u : unit) : bool :=
+  (0 <=? u_h u)%Z &&
+  forallb (fun o => (0 <=? o_mt o)%Z && (0 <=? o_pt o)%Z) (u_opens u) &&
+  forallb (fun c => (0 <=? c_pb c)%Z && (0 <=? c_mb c)%Z) (u_closes u).
+
 (* ------------------------------------------------------------------ boundaries *)
 
 Definition dummy_unit : unit := mkUnit 0 [] [] [] 0%N None.
